@@ -8,6 +8,7 @@ import (
 	"math/bits"
 	"strconv"
 	"strings"
+	"unicode"
 
 	"golang.org/x/tools/go/packages"
 	"golang.org/x/tools/go/types/typeutil"
@@ -432,6 +433,27 @@ func (r *rpf) stmt(s ast.Stmt) *rpfReturn {
 	case *ast.RangeStmt:
 		// bounded iteration over a *literal table* only (the trip count is fixed by the source literal)
 		lst := r.expr(x.X)
+		if lst.K == VStr {
+			// range over a string: byte offsets and runes (invalid UTF-8 yields U+FFFD, as in Go)
+			for i, ch := range lst.S {
+				if x.Key != nil {
+					r.assign(x.Key, vint(int64(i)), x.Tok == token.DEFINE)
+				}
+				if x.Value != nil {
+					r.assign(x.Value, &Val{K: VInt, I: int64(ch), T: types.Typ[types.Rune]}, x.Tok == token.DEFINE)
+				}
+				r.inTableLoop++
+				ret, brk := r.loopIter(x.Body.List)
+				r.inTableLoop--
+				if ret != nil {
+					return ret
+				}
+				if brk {
+					break
+				}
+			}
+			return nil
+		}
 		if lst.K != VList || lst.MapKeys != nil {
 			rpfFail("%s: range over a non-literal value", r.c.pos(x.Pos()))
 		}
@@ -1411,6 +1433,21 @@ func (r *rpf) stdPure(x *ast.CallExpr, callee types.Object) (*Val, bool) {
 				case "IndexRune":
 					return vint(int64(strings.IndexRune(a.S, rune(b.I)))), true
 				}
+			}
+		}
+	case "unicode":
+		if xs, ok := ints(); ok && len(xs) == 1 {
+			switch fn.Name() {
+			case "IsDigit":
+				return vbool(unicode.IsDigit(rune(xs[0]))), true
+			case "IsLetter":
+				return vbool(unicode.IsLetter(rune(xs[0]))), true
+			case "IsUpper":
+				return vbool(unicode.IsUpper(rune(xs[0]))), true
+			case "IsLower":
+				return vbool(unicode.IsLower(rune(xs[0]))), true
+			case "IsSpace":
+				return vbool(unicode.IsSpace(rune(xs[0]))), true
 			}
 		}
 	case "strconv":
